@@ -188,7 +188,12 @@ static void apply(char *op)
 		if (e) { adderr(name, e); M[i].degraded = 1; }
 		else if (from < MAXSZ) { if (to > MAXSZ) to = MAXSZ; if (to > from) memset(M[i].d + from, 0, to - from); }
 	} else if (t[0][0] == 'a' && n == 5) {
-		errcode_t e = ext2fs_fallocate(fs, atoi(t[2]), ino[i], NULL, ~0ULL, atoll(t[3]), atoll(t[4]));
+		errcode_t e;
+		/* a size-extending preallocation whose end lies beyond what the model holds is skipped, like a write there (the harness could not play the
+		 * caller's part of extending i_size, and initialised blocks past EOF are the caller's error, not the library's) */
+		if (((atoi(t[2]) & (EXT2_FALLOCATE_FORCE_INIT | EXT2_FALLOCATE_INIT_BEYOND_EOF)) || !extent_mapped(i)) &&
+		    (unsigned long long)(atoll(t[3]) + atoll(t[4])) * fs->blocksize > MAXSZ) { verify_all(name); return; }
+		e = ext2fs_fallocate(fs, atoi(t[2]), ino[i], NULL, ~0ULL, atoll(t[3]), atoll(t[4]));
 		if (e) { adderr(name, e); if (e != EXT2_ET_BLOCK_ALLOC_FAIL && e != ENOSPC && e != EXT2_ET_UNIMPLEMENTED && e != EXT2_ET_INVALID_ARGUMENT) M[i].degraded = 1; }
 		/* preallocation never changes what a file reads.  As in fuse2fs, a caller that asks for initialised blocks (FORCE_INIT /
 		 * INIT_BEYOND_EOF) is the non-KEEP_SIZE case and extends i_size to the end of the range itself. */
